@@ -119,6 +119,39 @@ def main():
         elif not strict:
             strict_fail.append(sid)
 
+    # ---- 4a. interleaved (Level B) comparisons that failed are repeated under release-atomic scheduling: runs of
+    #          consecutive releases of one thread are one step on both sides and are compared as sets (coq/BMonitors.v,
+    #          bcheck_ra).  A scenario whose only difference is the order of releases inside such runs agrees there;
+    #          its monitor has already accepted the implementation's execution under the original schedule.
+    tolerated = []
+    if proj_fail and not mon_fail and not crashed and hasattr(P, "release_atomic") and not replay:
+        cand = proj_fail[:200]
+        variants = [P.release_atomic(byid[x]) for x in cand]
+        res3, _ = hl.run_harness(driver, variants, pid + "ra")
+        items3 = []
+        for v in variants:
+            r3 = res3.get(v.sid)
+            if r3 is None or r3.get("crashed") or not r3["done"] or r3["error"] or r3["adr"] is None:
+                continue
+            e3 = P.coq_expr(v, r3)
+            if e3 is not None:
+                items3.append((v.sid, e3))
+        vals3, _ = hl.run_coq_cases(pid + "ra", P.CASE_MODULES, items3)
+        for x, v in zip(cand, variants):
+            vv = hl.parse_verdict(vals3.get(v.sid))
+            if vv is not None and vv[1] and vv[2]:
+                tolerated.append(x)
+            elif vv is not None and not vv[2]:
+                # the monitor rejects the implementation's execution under the release-atomic schedule: a failing input
+                byid[v.sid] = v
+                res[v.sid] = res3[v.sid]
+                vals[v.sid] = vals3[v.sid]
+                mon_fail.append(v.sid)
+        proj_fail = [x for x in proj_fail if x not in tolerated]
+        if tolerated:
+            notes.append(f"{len(tolerated)} interleaved scenario(s) differ from the model only in the order of releases inside "
+                         f"uninterrupted release runs (agree under release-atomic scheduling), e.g. {tolerated[0]}")
+
     # ---- 4b. when only the correspondence (or the discipline a theorem rests on) broke, look harder for an input on
     #          which the property itself fails: the module proposes variants of the diverging scenarios
     deep_tried = 0
@@ -202,12 +235,13 @@ def main():
             "traces_validated_against_impl": len(items) - len(unparsed),
             "evaluations": len(items), "distinct_nontrivial": len(ntriv),
             "rule": P.RULE, "samples": samples, "input_distribution": dist,
-            "strict_trace_equal": len(items) - len(strict_fail) - len(proj_fail) - len(mon_fail) - len(unparsed),
+            "strict_trace_equal": len(items) - len(strict_fail) - len(proj_fail) - len(tolerated) - len(mon_fail) - len(unparsed),
             "projection_mismatches": len(proj_fail), "monitor_failures_on_impl": len(mon_fail),
             "known_finding_hits": {k: len(v) for k, v in known_hits.items()},
             ("executions_with_acyclic_lock_order_graph" if pid == "C01" else
              "scenarios_meeting_whole_history_theorem_hypotheses"): (f"{covered[1]} of {covered[0]}") if covered[0] else "n/a",
             "variants_tried_after_a_mismatch": deep_tried,
+            "agree_only_up_to_release_order_within_runs": len(tolerated),
             "framework_errors": len(framework), "exhaustive": bool(getattr(P, "EXHAUSTIVE", {}).get(tier, False)),
         },
         "assumptions": P.ASSUMPTIONS, "wall_s": round(time.time() - t0, 1), "violations": violations,
